@@ -1553,7 +1553,9 @@ impl CanonicalizeContext {
 			if !(following_sibling_name == "mi" || following_sibling_name == "mo" || following_sibling_name == "mtext") {
 				return None;
 			}
-			if ELEMENTS_WITH_FIXED_NUMBER_OF_CHILDREN.contains(name(&get_parent(leaf))) {
+			let parent = get_parent(leaf);
+			let parent_name = name(&parent);
+			if ELEMENTS_WITH_FIXED_NUMBER_OF_CHILDREN.contains(parent_name) || parent_name == "mmultiscripts" {
 				return None;	// the sibling is the other part of a fraction, script, ..., not the rest of a function name
 			}
 
@@ -1590,6 +1592,11 @@ impl CanonicalizeContext {
 			if name(&following_sibling) != "mo" || as_text(following_sibling) != "|" {
 				return None
 			}
+			let parent = get_parent(leaf);
+			let parent_name = name(&parent);
+			if ELEMENTS_WITH_FIXED_NUMBER_OF_CHILDREN.contains(parent_name) || parent_name == "mmultiscripts" {
+				return None;	// the two bars are positional children (e.g., numerator and denominator), not neighbours in a row
+			}
 
 			// have "||" -- if there a single "|" on left, rule out merge
 			let preceding_siblings = leaf.preceding_siblings();
@@ -1619,7 +1626,9 @@ impl CanonicalizeContext {
 
 		/// merge a following mstyle that has the same attrs
 		fn merge_adjacent_similar_mstyles(mathml: Element) {
-			if ELEMENTS_WITH_FIXED_NUMBER_OF_CHILDREN.contains(name(&get_parent(mathml))) {
+			let parent = get_parent(mathml);
+			let parent_name = name(&parent);
+			if ELEMENTS_WITH_FIXED_NUMBER_OF_CHILDREN.contains(parent_name) || parent_name == "mmultiscripts" {
 				// FIX: look to see if all of the children (might be more than just the adjacent one) have the same attr and then pull them up to the parent
 				return;		// can't remove subsequent child 
 			}
